@@ -234,9 +234,19 @@ def evaluate_z3_re_loop(
     if expr.decl().kind() != z3.Z3_OP_RE_LOOP:
         return Nothing
 
+    if len(expr.params()) != 2:
+        # `(re.loop r lo hi)` with the bounds as arguments, or no upper bound.
+        return Nothing
+
+    lower, upper = expr.params()
+
+    # The body is grouped such that the bounds apply to all of it; SMT-LIB: the
+    # empty language if the lower bound exceeds the upper one.
     return Some(
         construct_result(
-            lambda args: f"{args[0]}{{{expr.params()[0]},{expr.params()[1]}}}",
+            lambda args: (
+                "(?!)" if lower > upper else f"(?:{args[0]}){{{lower},{upper}}}"
+            ),
             children_results,
         )
     )
